@@ -149,3 +149,119 @@ Proof.
   exists (state_of (build lit_rules lit_env mixF ord_id 3 init_state 1)).
   split; [vm_compute; reflexivity|]. split; [vm_compute; lia | vm_compute; reflexivity].
 Qed.
+
+(* ---------- the state a (possibly cancelled) build leaves behind ---------- *)
+
+Definition has_state (o : outcome) (s' : state) : Prop := o = Ok s' \/ exists p, o = Cycle s' p.
+
+Lemma build_log_ext : forall s s' l, st_log s' = l ++ st_log s -> build_log s' (length (st_log s)) = l.
+Proof.
+  intros s s' l H. unfold build_log. rewrite H, app_length.
+  replace (length l + length (st_log s) - length (st_log s))%nat with (length l) by lia.
+  rewrite firstn_app, firstn_all, Nat.sub_diag. cbn [firstn]. apply app_nil_r.
+Qed.
+
+Section After.
+Variable rules : key -> rule.
+Variable env : key -> N.
+Variable F : key -> N -> list value -> list N -> N -> N.
+Variable order : N -> key -> list dep -> list dep.
+
+(* s1: the state when the traversal ended or was stopped; l: the events of this build *)
+Definition left_behind (s : state) (o : outcome) (s' : state) (s1 : state) (l : list event) : Prop :=
+  cinv rules order [] (bump_epoch s) s1 l /\
+  st_log s' = st_log s1 /\ st_mem s' = st_mem s1 /\ st_db s' = st_db s1 /\
+  st_epoch s' = st_epoch s + 1 /\ st_db_epoch s' = st_epoch s + 1 /\
+  ((o <> Cycle s' [] /\ st_flag s' = st_flag s1) \/ (o = Cycle s' [] /\ st_flag s' = in_progress l ++ st_flag s1)).
+
+Lemma build_cancel_left_behind : forall n fuel s k o s',
+  build_cancel rules env F order n fuel s k = o -> has_state o s' -> exists s1 l, left_behind s o s' s1 l.
+Proof.
+  intros n fuel s k o s' Hb Hs. unfold build_cancel, build_cancel_with in Hb.
+  pose proof (ensure_c_inv rules env F order n (length (st_log s)) fuel [] (bump_epoch s) k) as Hi.
+  destruct (ensure_c rules env F order n (length (st_log s)) fuel [] (bump_epoch s) k) as [s1|s1 p|].
+  - destruct Hi as [l Hi]. exists s1, l. subst o. destruct Hs as [E|[p E]]; [|discriminate E]. inversion E. subst s'.
+    pose proof (ci_epoch _ _ _ _ _ _ Hi) as He. cbn [bump_epoch st_epoch] in He.
+    unfold left_behind. cbn [commit_epoch st_log st_mem st_db st_epoch st_db_epoch st_flag].
+    refine (conj Hi (conj eq_refl (conj eq_refl (conj eq_refl (conj He (conj He _)))))). left. split; [intros C; discriminate C | reflexivity].
+  - destruct Hi as [l Hi]. exists s1, l.
+    pose proof (ci_epoch _ _ _ _ _ _ Hi) as He. cbn [bump_epoch st_epoch] in He.
+    pose proof (ci_log _ _ _ _ _ _ Hi) as Hl. cbn [bump_epoch st_log] in Hl.
+    destruct p as [|x p].
+    + subst o. destruct Hs as [E|[p E]]; [discriminate E|]. inversion E. subst s' p.
+      unfold left_behind. cbn [commit_epoch cancel_reset st_log st_mem st_db st_epoch st_db_epoch st_flag].
+      refine (conj Hi (conj eq_refl (conj eq_refl (conj eq_refl (conj He (conj He _)))))). right. split; [reflexivity|]. now rewrite (build_log_ext _ _ _ Hl).
+    + subst o. destruct Hs as [E|[q E]]; [discriminate E|]. inversion E. subst s' q.
+      unfold left_behind. cbn [commit_epoch st_log st_mem st_db st_epoch st_db_epoch st_flag].
+      refine (conj Hi (conj eq_refl (conj eq_refl (conj eq_refl (conj He (conj He _)))))). left. split; [intros C; discriminate C | reflexivity].
+  - subst o. destruct Hs as [E|[p E]]; discriminate E.
+Qed.
+
+Lemma existsb_filter_key : forall (f : key -> bool) ks x,
+  existsb (N.eqb x) (filter f ks) = existsb (N.eqb x) ks && f x.
+Proof.
+  intros f ks x. induction ks as [|y t IH]; [reflexivity|]. cbn [filter existsb].
+  destruct (N.eqb x y) eqn:E.
+  - apply N.eqb_eq in E. subst y. destruct (f x) eqn:Ef; cbn [existsb orb andb].
+    + now rewrite N.eqb_refl.
+    + rewrite IH, Ef. now rewrite andb_false_r.
+  - destruct (f y); cbn [existsb orb]; rewrite ?E; exact IH.
+Qed.
+
+Lemma existsb_created_keys : forall l x, existsb (N.eqb x) (created_keys l) = created_in l x.
+Proof.
+  intros l x. unfold created_in. induction l as [|e t IH]; [reflexivity|].
+  destruct e; cbn [created_keys existsb is_create orb]; try exact IH.
+  rewrite IH. now rewrite (N.eqb_sym x k).
+Qed.
+
+Lemma in_progress_spec : forall l x,
+  existsb (N.eqb x) (in_progress l) = created_in l x && negb (completed_in l x).
+Proof. intros. unfold in_progress. now rewrite existsb_filter_key, existsb_created_keys. Qed.
+
+Lemma created_in_true : forall l x, created_in l x = true <-> In (ECreate x) l.
+Proof.
+  intros l x. unfold created_in. rewrite existsb_exists. split.
+  - intros [e [Hin He]]. destruct e; cbn [is_create] in He; try discriminate.
+    apply N.eqb_eq in He. subst. exact Hin.
+  - intros Hin. exists (ECreate x). split; [exact Hin|]. cbn [is_create]. apply N.eqb_refl.
+Qed.
+
+(* c05_persisted_only_completed *)
+Theorem persisted_only_completed : forall n fuel s k o s',
+  build_cancel rules env F order n fuel s k = o -> has_state o s' ->
+  (forall x, get (st_db s') x = get (st_db s) x \/
+             exists v, In (EComplete x v) (build_log s' (length (st_log s))) /\
+                       row_of_completion rules order (st_epoch s + 1) x v (get (st_db s') x)) /\
+  (forall x, completed_in (build_log s' (length (st_log s))) x = false -> get (st_db s') x = get (st_db s) x).
+Proof.
+  intros n fuel s k o s' Hb Hs. destruct (build_cancel_left_behind _ _ _ _ _ _ Hb Hs) as [s1 [l [Hi [Hl [_ [Hdb _]]]]]].
+  pose proof (ci_log _ _ _ _ _ _ Hi) as Hl1. cbn [bump_epoch st_log] in Hl1. rewrite <- Hl in Hl1.
+  rewrite (build_log_ext _ _ _ Hl1), Hdb.
+  assert (A : forall x, get (st_db s1) x = get (st_db s) x \/
+             exists v, In (EComplete x v) l /\ row_of_completion rules order (st_epoch s + 1) x v (get (st_db s1) x)).
+  { intros x. exact (ci_db _ _ _ _ _ _ Hi x). }
+  split; [exact A|]. intros x Hc. destruct (A x) as [E|[v [Hin _]]]; [exact E|].
+  exfalso. exact (completed_in_false _ _ _ Hc Hin).
+Qed.
+
+(* c05_flags_exact *)
+Theorem flags_exact : forall n fuel s k s',
+  build_cancel rules env F order n fuel s k = Cycle s' [] ->
+  forall x, flagged s' x =
+            (flagged s x || created_in (build_log s' (length (st_log s))) x)
+            && negb (completed_in (build_log s' (length (st_log s))) x).
+Proof.
+  intros n fuel s k s' Hb x.
+  assert (Hs : has_state (Cycle s' []) s') by (right; eexists; reflexivity).
+  destruct (build_cancel_left_behind _ _ _ _ _ _ Hb Hs) as [s1 [l [Hi [Hl [_ [_ [_ [_ Hf]]]]]]]].
+  pose proof (ci_log _ _ _ _ _ _ Hi) as Hl1. cbn [bump_epoch st_log] in Hl1. rewrite <- Hl in Hl1.
+  rewrite (build_log_ext _ _ _ Hl1).
+  destruct Hf as [[C _]|[_ Hf]]; [exfalso; now apply C|].
+  unfold flagged at 1. rewrite Hf, existsb_app, in_progress_spec.
+  change (existsb (N.eqb x) (st_flag s1)) with (flagged s1 x). rewrite (ci_flag _ _ _ _ _ _ Hi x).
+  change (flagged (bump_epoch s) x) with (flagged s x).
+  destruct (flagged s x), (created_in l x), (completed_in l x); reflexivity.
+Qed.
+
+End After.
